@@ -52,6 +52,22 @@ def set_parents(tree):
     tree._parent = None
 
 
+def clone(node):
+    """deep copy of a syntax tree that does not follow the _parent back-links"""
+    if isinstance(node, list):
+        return [clone(x) for x in node]
+    if not isinstance(node, ast.AST):
+        return node
+    new = type(node)()
+    for f in node._fields:
+        if hasattr(node, f):
+            setattr(new, f, clone(getattr(node, f)))
+    for a in ('lineno', 'col_offset', 'end_lineno', 'end_col_offset'):
+        if hasattr(node, a):
+            setattr(new, a, getattr(node, a))
+    return new
+
+
 def mangle(cls, attr):
     """Python private-name mangling"""
     if cls and attr.startswith('__') and not attr.endswith('__'):
